@@ -144,58 +144,71 @@ theorem stop_reasons (c : Cfg) (s s' : St) (h : Reach c s) :
         exact ⟨hc.2, _, rfl, (mem_set (i := i) (r := r) (now := s.now)).mpr (Or.inr rfl)⟩
       · cases hs
 
-/-- The daemon killer reaches every instance whose memory is still in the inventory. -/
-theorem exit_reaches_known (c : Cfg) (s : St) (i : Inst) (hi : s.run = some i) (hk : s.known = true) :
-    ∃ s', step c s (.kBegin .exiting) = some s' := by
-  simp [step, hi, hk]
-
 /-! ## when the operator pauses: cancelled within backoff + one killer period, whoever set the flag
 
   While paused, no processing cycle escalates (the streams are down: the touch a cycle schedules for
   its delays produces an event nobody receives). The killer repeats its sweep every `killerPeriod` and
-  spawns `stop_daemon` for EVERY listed daemon (`sweepSpawns`, tied to the AST and to every observed
-  round) — also for one whose OPERATOR_PAUSING was set by `pause_daemons` in a cycle. -/
+  spawns `stop_daemon` for EVERY listed daemon — also for one whose OPERATOR_PAUSING was set by
+  `pause_daemons` in a cycle (that the sweep is unconditional is a tie obligation: `Tie.sweep_unconditional`
+  over the AST, and the "round" comparison of every observed sweep).
+
+  The transition system lets the environment choose the labels; what the killer's code adds is urgency:
+  its asyncio timers fire when due. `Dutiful c r .waiting s ls` (Model file) says exactly that for the
+  round at `r` and this daemon, and nothing else about the run. -/
 
 /-- a round is never more than one period away -/
 theorem next_round_within_period (p t : Tick) (h : p ≤ t) :
     t ≤ nextRound p t ∧ nextRound p t < t + killerPeriod :=
   nextRound_bounds p t h
 
-/-- the sweep does not look at the stopper: a daemon that already carries OPERATOR_PAUSING is swept too -/
-theorem sweep_is_unconditional (i : Inst) : sweepSpawns i = true := rfl
-
-/-- From ANY reachable state in which the instance runs and its memory is known — whatever its stopper
-    holds already, in particular OPERATOR_PAUSING set by `pause_daemons` — with the pause toggled at
-    `p ≤ now`: the next round's `stop_daemon` is enabled and its cancellation stage is enabled
-    `backoff` later; after it the task has been cancelled no later than `now + killerPeriod + backoff`
-    (`now` = e.g. the moment the flag was set). -/
-theorem paused_daemon_cancelled_in_time (c : Cfg) (s : St) (i : Inst) (p : Tick) (h : Reach c s)
-    (hi : s.run = some i) (hk : s.known = true) (ht : c.timeout.isSome = true) (hb : 0 ≤ c.b0) (hp : p ≤ s.now) :
-    ∃ s' i' tc, runs c s [.tick (nextRound p s.now - s.now).toNat, .kBegin .pausing, .tick c.b0.toNat,
-                          .kCancel (nextRound p s.now)] = some s' ∧
-      s'.run = some i' ∧ i'.cancelAt = some tc ∧ tc < s.now + killerPeriod + c.b0 ∧
-      Reason.cancelled ∈ i'.reasons := by
+/-- From ANY reachable state — whatever the running instance's stopper holds already, in particular
+    OPERATOR_PAUSING set by `pause_daemons` — with the pause toggled at `p ≤ now`, along EVERY
+    label list in which the killer does its duty for the next round: once the clock is past that round
+    plus the backoff, if the memory is still known and the same instance is still the running one, its
+    task HAS BEEN cancelled — no later than `now + killerPeriod + backoff`. -/
+theorem paused_daemon_is_cancelled (c : Cfg) (s s' : St) (i' : Inst) (p : Tick) (ls : List Label)
+    (h : Reach c s) (hb : 0 ≤ c.b0) (hp : p ≤ s.now)
+    (hr : runs c s ls = some s') (hd : Dutiful c (nextRound p s.now) .waiting s ls)
+    (hlate : nextRound p s.now + c.b0 < s'.now)
+    (hk : s'.known = true) (hsame : s'.spawns = s.spawns) (hi' : s'.run = some i') :
+    ∃ tc, i'.cancelAt = some tc ∧ tc ≤ nextRound p s.now + c.b0 ∧ tc < s.now + killerPeriod + c.b0 := by
   obtain ⟨hlo, hhi⟩ := nextRound_bounds p s.now hp
-  have hd : ((nextRound p s.now - s.now).toNat : Int) = nextRound p s.now - s.now :=
-    Int.toNat_of_nonneg (by unfold Tick at *; omega)
-  have hr : s.now + ((nextRound p s.now - s.now).toNat : Int) = nextRound p s.now := by
-    rw [hd]; unfold Tick at *; omega
-  obtain ⟨s', i', tc, hrun, hrun', hc, hle, _, hcm⟩ :=
-    resweep_path (reach_inv h) hi hk ht hb (nextRound p s.now - s.now).toNat
-  rw [hr] at hrun hle
-  refine ⟨s', i', tc, hrun, hrun', hc, ?_, hcm⟩
-  generalize c.b0 = bb at *
-  generalize nextRound p s.now = rr at *
-  unfold Tick at *
-  omega
+  obtain ⟨d', hinv, _⟩ := dutiful_runs (r := nextRound p s.now) hb ls .waiting s s' s.spawns (reach_inv h)
+    (Nat.le_refl _) (Or.inr hlo) hd hr
+  have hnl : ¬ Lost s.spawns s' := by
+    rintro (h1 | h2 | h3)
+    · rw [hk] at h1; cases h1
+    · rw [hi'] at h2; cases h2
+    · omega
+  cases d' with
+  | waiting =>
+    rcases hinv with hl | hle
+    · exact absurd hl hnl
+    · exfalso; generalize c.b0 = bb at *; generalize nextRound p s.now = rr at *; unfold Tick at *; omega
+  | begun =>
+    rcases hinv with hl | ⟨hle, _⟩
+    · exact absurd hl hnl
+    · exfalso; generalize c.b0 = bb at *; generalize nextRound p s.now = rr at *; unfold Tick at *; omega
+  | served =>
+    rcases hinv with hl | hc
+    · exact absurd hl hnl
+    · obtain ⟨tc, h1, h2⟩ := hc i' hi'
+      refine ⟨tc, h1, h2, ?_⟩
+      generalize c.b0 = bb at *; generalize nextRound p s.now = rr at *; unfold Tick at *; omega
 
-/-- non-vacuity: a daemon spawned and flagged by `pause_daemons` in a cycle at tick 70 (pause toggled
-    at 65), backoff 32, timeout 64: the round at 129 starts `stop_daemon`, which cancels at 161 -/
-example : ∃ s i, runs { backoff := some 32, timeout := some 64, polling := 3840 } (St.init 70)
-      [.cycle { matching := true, marked := false, paused := true, deleted := false, ex1 := Ex.never, ex2 := Ex.never },
-       .tick 59, .kBegin .pausing, .tick 32, .kCancel 129] = some s ∧ s.run = some i ∧
-    i.when = some 70 ∧ i.cancelAt = some 161 ∧ nextRound 65 70 = 129 :=
-  ⟨_, _, rfl, rfl, by decide, by decide, by decide⟩
+/-- non-vacuity of `paused_daemon_is_cancelled`: a daemon spawned and flagged by `pause_daemons` in a
+    cycle at tick 70 (pause toggled at 65; backoff 32, timeout 64). A dutiful run exists, with other
+    things happening in between (a second sneaking cycle, an unrelated killer coroutine, time steps);
+    it ends past the deadline with the same instance running — cancelled at 161 = round 129 + 32. -/
+example :
+    let c : Cfg := { backoff := some 32, timeout := some 64, polling := 3840 }
+    let ev : CycIn := { matching := true, marked := false, paused := true, deleted := false, ex1 := Ex.never, ex2 := Ex.never }
+    let ls : List Label := [.tick 20, .cycle ev, .tick 39, .kBegin .pausing, .tick 10, .kSignal 129, .tick 22, .kCancel 129, .tick 5]
+    ∃ s s', runs c (St.init 70) [.cycle ev] = some s ∧ Reach c s ∧ s.run.isSome = true ∧ nextRound 65 s.now = 129 ∧
+      runs c s ls = some s' ∧ Dutiful c 129 .waiting s ls ∧ 129 + c.b0 < s'.now ∧ s'.known = true ∧
+      s'.spawns = s.spawns ∧ (s'.run.bind (·.cancelAt)) = some 161 := by
+  intro c ev ls
+  exact ⟨_, _, rfl, ⟨70, [.cycle ev], rfl⟩, by decide, by decide, rfl, by decide, by decide, by decide, by decide, by decide⟩
 
 /-! ## …except when the object disappears without the deletion mark (finding F10)
 
@@ -235,78 +248,112 @@ theorem gone_unmarked_witness :
       s.known = false ∧ s.live = 1 ∧ s.run = some Inst.fresh := by
   refine ⟨_, rfl, ?_, ?_, ?_⟩ <;> decide
 
-/-! ## stopping never crashes the operator: the daemon killer's sweep
+/-! ## stopping never crashes the operator
 
-  Since /repo 06bf1c1 the killer iterates `list(memory.running_daemons.values())` (and
-  `list(memories.iter_all_daemon_memories())`): a snapshot taken before the first await. -/
+  No theorem: "never crashes" is covered by the oracle on every simulated history (no exception out of
+  the daemon killer, of `process_spawning_cause`, of `process_resource_event`, of `kopf.operator()`;
+  operator alive at the end) and, for the repaired finding F11, by the tie obligation
+  `Tie.killer_iterates_snapshots` (every awaiting loop of `daemon_killer` iterates a `list(...)` copy;
+  `Lemmas: killer_sweep_visits_all`) plus the corpus regressions `F11*.json`. -/
 
-/-- Whatever the daemons do to the dict while the killer awaits between two steps (any sequence of
-    sizes), the sweep never raises and visits exactly the daemons that were there when it started. -/
-theorem killer_sweep_visits_all {α : Type} (snapshot : List α) (sizes : List Nat) :
-    iterSnapshot snapshot sizes [] = (.finished, snapshot) := by
-  have h : ∀ (xs : List α) (szs : List Nat) (acc : List α),
-      iterSnapshot xs szs acc = (.finished, acc.reverse ++ xs) := by
-    intro xs
-    induction xs with
-    | nil => intro szs acc; simp [iterSnapshot]
-    | cons x xs ih =>
-      intro szs acc
-      cases szs with
-      | nil => simp [iterSnapshot, ih]
-      | cons z zs => simp [iterSnapshot, ih]
-  simpa using h snapshot sizes []
+/-- HISTORICAL (finding F11, fixed by 06bf1c1): the old loop over the live dict view raised as soon as one
+    of three daemons had erased itself; over a snapshot the same environment is harmless. -/
+example : iterLive 3 0 [3, 3, 2] = .raised ∧ iterSnapshot ["t0", "d1", "t2"] [3, 3, 2] [] = (.finished, ["t0", "d1", "t2"]) := by
+  decide
 
-/-- HISTORICAL (finding F11, fixed by 06bf1c1; kept as the regression's model-side witness): the old
-    loop over the live dict view raised as soon as one of three daemons had erased itself. -/
-theorem old_killer_iteration_witness : iterLive 3 0 [3, 3, 2] = .raised := by decide
+/-! ## stopping never stalls: the micro-steps of `_timer` and `_daemon`
 
-example : iterSnapshot ["t0", "d1", "t2"] [3, 3, 2] [] = (.finished, ["t0", "d1", "t2"]) := by decide
+  FULL CLAUSE (false of the code, finding F12): "from every program point, in every environment and for
+  EVERY handler behaviour, the coroutine suspends or returns within k steps".
+  Nothing in `execute_handlers_once` / `invocation.invoke` / `patch_and_check` (empty patch) suspends by
+  itself. A run reports `yields` (it gave control to the loop) or not; `Outcome.good` is the exact guard:
+  a run that does not yield and is to be retried is retried after a positive delay. -/
 
-/-! ## stopping never stalls: the micro-steps of `_timer` -/
+/-- For the tree under test (`guarded = treeGuarded`), from EVERY program point, in EVERY environment
+    (stopper set or not, any clock, any idle-reset time), for EVERY stream of handler outcomes that
+    satisfies the guard (yielding or not, failing for good, …) and every timer configuration with positive
+    `idle`/`interval`: the coroutine suspends or returns within 10 steps. -/
+theorem progress_partial (c : TCfg) (e : TEnv) (os : Nat → Outcome) (l : TLoc) (hg : c.guarded = treeGuarded)
+    (hidle : ∀ d, c.idle = some d → 0 < d) (hint : ∀ v, c.interval = some v → 0 < v)
+    (hgood : ∀ n, (os n).good = true) : settles c e os 10 l = true :=
+  settles_all c e os hg hidle hint hgood l
 
-/-- For the tree under test (`guarded = treeGuarded`: the after-run idle loop also tests the stopper):
-    from EVERY program point, in EVERY environment (stopper set or not, any clock, any idle-reset time),
-    for every handler outcome (including a series that has failed for good, whose "run" does not
-    suspend) and every timer configuration with positive `idle`/`interval`, the coroutine suspends or
-    returns within 10 steps. -/
-theorem progress (c : TCfg) (e : TEnv) (o : Outcome) (l : TLoc) (hg : c.guarded = treeGuarded)
-    (hidle : ∀ d, c.idle = some d → 0 < d) (hint : ∀ v, c.interval = some v → 0 < v) :
-    settles c e o 10 l = true :=
-  settles_all c e o hg hidle hint l
+/-- The guard is exact: an async handler that neither awaits nor finishes and is retried with delay ≤ 0
+    (`TemporaryError(delay=0)`, `delay=None`, `backoff=0`) on a timer without `idle`, stopper not set: from
+    the loop head NO number of steps reaches a suspension or a return — nothing else ever runs again,
+    in particular nobody can set the stopper. Any interval, sharp or not, any clock. -/
+theorem nonyielding_retry_spins (c : TCfg) (e : TEnv) (os : Nat → Outcome) (l : TLoc)
+    (hi : c.idle = none) (hs : e.stop = false) (hpc : l.pc = .head) (hd : l.done = false)
+    (hbad : ∀ n, (os n).yields = false ∧ (os n).done = false ∧ (os n).errDelay ≤ 0) :
+    ∀ k, settles c e os k l = false :=
+  fun k => retrySpin_never_settles c e os hi hs hbad k l (by simp [retrySpin, hpc, hd])
 
-/-- HISTORICAL (finding F1, fixed by 6ccf081): without the guard, inside the spin set NO number of
+/-- the witness replayed on the real code (corpus/C09/F12-timer.json): `@kopf.timer(interval=1.0)`,
+    `async def fn(**_): raise kopf.TemporaryError("again", delay=0)` -/
+theorem nonyielding_retry_witness :
+    let c : TCfg := { initialDelay := none, idle := none, interval := some 64, sharp := false, guarded := treeGuarded }
+    let e : TEnv := { now := 100, stop := false, idleReset := 0 }
+    let o : Outcome := { done := false, failed := false, errDelay := 0, yields := false }
+    let l : TLoc := { pc := .head, started := 0, done := false, failed := false, errDelay := 0, runs := 0 }
+    o.good = false ∧ (∀ k, settles c e (fun _ => o) k l = false) ∧
+      settles c e (fun _ => { o with errDelay := 1 }) 4 l = true ∧ settles c e (fun _ => { o with yields := true }) 2 l = true := by
+  intro c e o l
+  refine ⟨by decide, ?_, by decide, by decide⟩
+  exact nonyielding_retry_spins c e _ l rfl rfl rfl rfl (fun _ => ⟨rfl, rfl, by decide⟩)
+
+/-- `_daemon` has the same retry loop (`while not stopper.is_set() and not state.done: … if state.delay:
+    sleep`): under the same guard it suspends or returns within 5 steps from every program point… -/
+theorem daemon_progress_partial (initialDelay : Option Tick) (e : TEnv) (os : Nat → Outcome) (l : DLoc)
+    (hgood : ∀ n, (os n).good = true) : dsettles initialDelay e os 5 l = true :=
+  dsettles_all initialDelay e os hgood l
+
+/-- …and outside the guard it never does (corpus/C09/F12-daemon.json). -/
+theorem daemon_nonyielding_retry_spins (initialDelay : Option Tick) (e : TEnv) (os : Nat → Outcome) (l : DLoc)
+    (hs : e.stop = false) (hpc : l.pc = .head) (hd : l.done = false)
+    (hbad : ∀ n, (os n).yields = false ∧ (os n).done = false ∧ (os n).errDelay ≤ 0) :
+    ∀ k, dsettles initialDelay e os k l = false :=
+  fun k => dretrySpin_never_settles initialDelay e os hs hbad k l (by simp [dretrySpin, hpc, hd])
+
+example :
+    let e : TEnv := { now := 100, stop := false, idleReset := 0 }
+    let o : Outcome := { done := false, failed := false, errDelay := 0, yields := false }
+    let l : DLoc := { pc := .head, done := false, delay := 0, runs := 0 }
+    dsettles none e (fun _ => o) 60 l = false ∧ dsettles none e (fun _ => { o with errDelay := 32 }) 3 l = true := by
+  decide
+
+/-- HISTORICAL (finding F1, fixed by 6ccf081): without the loop guard, inside the spin set NO number of
     steps reaches a suspension or a return (nothing else gets to run meanwhile). -/
-theorem idle_only_spins (c : TCfg) (e : TEnv) (o : Outcome) (l : TLoc) (hs : spinning c e l = true) :
-    ∀ k, settles c e o k l = false :=
-  fun k => spinning_never_settles c e o k l hs
+theorem idle_only_spins (c : TCfg) (e : TEnv) (os : Nat → Outcome) (l : TLoc) (hs : spinning c e l = true) :
+    ∀ k, settles c e os k l = false :=
+  fun k => spinning_never_settles c e os k l hs
 
 /-- HISTORICAL witness of F1: `@kopf.timer(idle=1s)` before the repair, one run at tick 129, nothing
     changed since, the stopper gets set while the timer sleeps in its after-run loop. -/
 theorem idle_only_spins_witness :
     let c : TCfg := { initialDelay := none, idle := some 64, interval := none, sharp := false, guarded := false }
     let e : TEnv := { now := 256, stop := true, idleReset := 64 }
-    let l : TLoc := { pc := .idleLoop, started := 129, done := true, failed := false, errDelay := 0 }
-    let o : Outcome := { done := true, failed := false, errDelay := 0 }
-    spinning c e l = true ∧ tstep c e o l = .cont l ∧ ∀ k, settles c e o k l = false := by
+    let l : TLoc := { pc := .idleLoop, started := 129, done := true, failed := false, errDelay := 0, runs := 1 }
+    let o : Outcome := { done := true, failed := false, errDelay := 0, yields := true }
+    spinning c e l = true ∧ tstep c e (fun _ => o) l = .cont l ∧ ∀ k, settles c e (fun _ => o) k l = false := by
   intro c e l o
   have hs : spinning c e l = true := by decide
-  exact ⟨hs, by decide, fun k => spinning_never_settles c e o k l hs⟩
+  exact ⟨hs, by decide, fun k => spinning_never_settles c e _ k l hs⟩
 
 /-- the same state in the current tree: the loop is left and `_timer` returns in two steps -/
 example :
     let c : TCfg := { initialDelay := none, idle := some 64, interval := none, sharp := false, guarded := treeGuarded }
     let e : TEnv := { now := 256, stop := true, idleReset := 64 }
-    let l : TLoc := { pc := .idleLoop, started := 129, done := true, failed := false, errDelay := 0 }
-    let o : Outcome := { done := true, failed := false, errDelay := 0 }
-    spinning c e l = false ∧ settles c e o 2 l = true ∧ settles c e o 1 l = false := by decide
+    let l : TLoc := { pc := .idleLoop, started := 129, done := true, failed := false, errDelay := 0, runs := 1 }
+    let o : Outcome := { done := true, failed := false, errDelay := 0, yields := true }
+    spinning c e l = false ∧ settles c e (fun _ => o) 2 l = true ∧ settles c e (fun _ => o) 1 l = false := by decide
 
 /-- a timer whose series has failed for good: its non-suspending "run" is followed by a real sleep -/
 example :
     let c : TCfg := { initialDelay := none, idle := none, interval := some 64, sharp := true, guarded := treeGuarded }
     let e : TEnv := { now := 500, stop := false, idleReset := 0 }
-    let l : TLoc := { pc := .head, started := 436, done := true, failed := true, errDelay := 0 }
-    let o : Outcome := { done := true, failed := true, errDelay := 0 }
-    settles c e o 3 l = true ∧ settles c e o 2 l = false := by decide
+    let l : TLoc := { pc := .head, started := 436, done := true, failed := true, errDelay := 0, runs := 3 }
+    let o : Outcome := { done := true, failed := true, errDelay := 0, yields := false }
+    settles c e (fun _ => o) 3 l = true ∧ settles c e (fun _ => o) 2 l = false := by decide
 
 /-! ## non-vacuity -/
 
